@@ -486,6 +486,7 @@ func (ctx Ctx) packageMethod(f *ast.SelectorExpr,
 			return ctx.newCoqCall("lock.newCond", args)
 		}
 	}
+	ctx.checkNotVariadic(call)
 	pkg := f.X.(*ast.Ident)
 	return ctx.newCoqCallTypeArgs(
 		coq.GallinaIdent(coq.PackageIdent{Package: pkg.Name, Ident: f.Sel.Name}.Coq(true)),
